@@ -750,6 +750,8 @@ pub fn gen_case(seed: u64, id: u64) -> Case {
     let mut special_fail = false;
     let mut doc_target = false;
     let mut zoo = false;
+    // xe: the element at paths[0] AND its attribute of this name are both targets
+    let mut also_attr: Option<String> = None;
     if sibling_family || rng.pct(24) {
         match if sibling_family { 4 } else { [0usize, 1, 2, 3, 6, 7][rng.below(6)] } {
             7 => {
@@ -885,7 +887,14 @@ pub fn gen_case(seed: u64, id: u64) -> Case {
                     walk(&root, &mut vec![], &mut all_elems);
                 }
                 let is_prefix = |a: &Vec<usize>, b: &Vec<usize>| a.len() <= b.len() && b[..a.len()] == a[..];
-                let form = [0usize, 1, 2, 3, 6, 7, 8, 4, 5][rng.below(if tool == "xq" { 9 } else { 7 })];
+                let own_attrs: Vec<String> = match get(&root, &own) {
+                    Some(G::El { attrs, .. }) => attrs.iter().map(|(k, _)| k.clone()).collect(),
+                    _ => vec![],
+                };
+                let mut form = [0usize, 1, 2, 3, 6, 7, 8, 9, 4, 5][rng.below(if tool == "xq" { 10 } else { 8 })];
+                if form == 9 && (tool == "xq" || own_attrs.is_empty()) {
+                    form = 8;
+                }
                 let wrap = |rng: &mut Rng, base: &str| -> String {
                     match rng.below(3) {
                         0 => base.to_string(),
@@ -922,6 +931,14 @@ pub fn gen_case(seed: u64, id: u64) -> Case {
                         u.dedup();
                         paths = u;
                         what = "union of three paths, in document order whatever the order of the operands".into();
+                    }
+                    9 => {
+                        // an element together with one of its own attributes: both are rewritten
+                        let a = rng.pick(&own_attrs).clone();
+                        expr = if rng.pct(50) { format!("{} | {}/@{}", base, base, a) } else { format!("{}/@{} | {}", base, a, base) };
+                        paths = vec![own.clone()];
+                        also_attr = Some(a);
+                        what = "an element and one of its own attributes".into();
                     }
                     0 => {
                         expr = format!("{}/preceding-sibling::*", wrap(&mut rng, &base));
@@ -1299,7 +1316,31 @@ pub fn gen_case(seed: u64, id: u64) -> Case {
                 }
             }
             expect_kind = "canon".into();
-            expect = canon_of(&pre, &r, &post);
+            if let Some(a) = &also_attr {
+                let textual = vkids.iter().all(|k| matches!(k, G::Text(_) | G::CharRef(..) | G::EntRef(..)));
+                if !textual {
+                    expect_kind = "fail".into();
+                    what = "xe: markup as attribute value".into();
+                } else {
+                    let mut sv = String::new();
+                    for k in &vkids {
+                        string_value(k, &mut sv);
+                    }
+                    if vkids.iter().any(|k| matches!(k, G::CharRef(_, c) if c == "\n" || c == "\t")) {
+                        gate = "xe_attribute_value_whitespace_reference".into();
+                    }
+                    if let Some(G::El { attrs, .. }) = get_mut(&mut r, &paths[0]) {
+                        for (k, v) in attrs.iter_mut() {
+                            if k == a {
+                                *v = format!("{}{}", EXACT, sv);
+                            }
+                        }
+                    }
+                }
+            }
+            if expect_kind == "canon" {
+                expect = canon_of(&pre, &r, &post);
+            }
             if paths.len() > tops.len() {
                 what.push_str(" (nested targets)");
             }
